@@ -422,8 +422,8 @@ def run_check(tier, only_inputs=None):
     chk.cov["inputs_by_class"] = {"%s/%s" % k: v for k, v in sorted(by_class.items())}
     chk.cov["converter_inputs"] = dict(collections.Counter(i["fmt"] for i in conv))
     rnd = random.Random(vlib.seed())
-    media_gcc = ["mem", "sstream"] if quick else ["mem", "sstream", "short3"]
-    media_san = ["mem", "sstream"]
+    media_gcc = ["mem", "sstream"] if quick else ["mem", "sstream", "short3", "short1"]
+    media_san = ["mem", "sstream"] if quick else ["mem", "sstream", "short3"]
     tasks = []
     for part in ("msgpack", "json", "xml", "csv"):
         mine = [i for i in docs if i["fmt"] == part]
